@@ -25,12 +25,12 @@ def tla_set(xs):
 def hex_cases(tier):
     shapes = [(20, 20), (21, 21), (20, 23)] if tier == 'quick' else [(20, 20), (21, 21), (20, 23), (25, 22), (17, 17)]
     geoms = [(2, 12, 2), (2, 14, 0), (3, 10, 3), (2, 6, 2)] if tier == 'quick' else [(2, 12, 2), (2, 14, 0), (3, 10, 3), (2, 6, 2), (3, 15, 1), (2, 9, 1), (1, 7, 0)]
-    excl = [(), (0,), (1, 4), (0, 7, 18)]
+    excl = [(), (0,), (1, 4), (0, 7, 18), (6,), (0, 6, 12)]
     out = []
     n = 0
     for (nr, nc), (dxu, d, s), rot, rings, ex in itertools.product(shapes, geoms, (90, 0), (0, 1, 2) if tier != 'quick' else (1, 2), excl):
         n += 1
-        if tier == 'quick' and n % 4 != 1:
+        if tier == 'quick' and n % 5 != 1:
             continue
         if tier != 'quick' and n % 2 != 1:
             continue
@@ -102,7 +102,7 @@ def prim_cases(tier):
     n = 0
     for (nr, nc), (p, g, sym), dxu in itertools.product(shapes, prims, (1, 2)):
         n += 1
-        if tier == 'quick' and n % 3 != 1:
+        if tier == 'quick' and n % 3 != 1 and p['k'] not in ('circle', 'annulus'):
             continue
         out.append('[nr |-> %d, nc |-> %d, dxu |-> %d, p |-> %s, g |-> %s, sym |-> [point |-> %s, x |-> %s, y |-> %s]]'
                    % (nr, nc, dxu, prim_rec(**p), prim_rec(**g), *('TRUE' if s else 'FALSE' for s in sym)))
@@ -120,7 +120,7 @@ def cfg(mode, cases, emit, variant='design', laws=None):
     return c, dict(Cases=tla_set(cases))
 
 
-RING_CFG = 'INIT Init\nNEXT Next\nCHECK_DEADLOCK FALSE\nCONSTANTS\n MaxRing = %d\n Excludes = {{}, {0}, {1, 4}, {0, 7, 18}, {2, 3, 5, 36}}\n Variant = "%s"\n EmitOn = %s\n%s'
+RING_CFG = 'INIT Init\nNEXT Next\nCHECK_DEADLOCK FALSE\nCONSTANTS\n MaxRing = %d\n Excludes = {{}, {0}, {1, 4}, {0, 7, 18}, {6}, {0, 6, 12}, {2, 3, 5, 36}}\n Variant = "%s"\n EmitOn = %s\n%s'
 RING_LAWS = ('CubeLaw', 'OnRing', 'Distinct', 'Chain', 'Closed', 'MatchesClosedForm', 'IdLaw')
 
 
@@ -254,6 +254,7 @@ def replay_key(rec, ctx, np, idx):
     centre = np.array(rec['centre'])
     full = np.zeros(x.shape, dtype=bool)
     full[ap.center_window] = ap.center_mask
+    centrefull, segfull = full.copy(), []
     count = full.astype(int)
     anytie = centre == 2
     if ((full != (centre == 1)) & (centre != 2)).any():
@@ -262,6 +263,7 @@ def replay_key(rec, ctx, np, idx):
         full = np.zeros(x.shape, dtype=bool)
         full[win] = lm
         inn, tie = cells_mask(np, s['in'], x.shape), cells_mask(np, s['tie'], x.shape)
+        segfull.append(full)
         anytie |= tie
         count += full
         bad = (full != inn) & ~tie
@@ -280,6 +282,45 @@ def replay_key(rec, ctx, np, idx):
     if bad.any():
         i, j = map(int, np.argwhere(bad)[0])
         ctx.fail('Keystone:amp:%s:%s' % ('missing' if want[i, j] == 1 else 'extra', tag), '%s: amp differs from (centre + sectors - gaps) in %d sample(s), e.g. (row %d, col %d)' % (desc, int(bad.sum()), i, j), rec)
+    if idx % 3 == 0:
+        replay_key_opd(rec, ctx, np, ap, x, segfull, centrefull, tag, desc)
+
+
+def basis_polar_piston(orders, r, t):
+    import numpy as np
+    return [np.ones_like(r)]
+
+
+def replay_key_opd(rec, ctx, np, ap, x, segfull, centrefull, tag, desc):
+    """per-segment optical path error of a keystone aperture: confined to its segment, linear in the coefficients"""
+    nseg = len(segfull)
+    rng = np.random.RandomState(7 + nseg)
+    for name, prep, nmodes in (('polar', lambda: ap.prepare_opd_bases(basis_polar_piston, None, basis_polar_piston, None), 1),
+                               ('cartesian', lambda: ap.prepare_opd_bases(basis_pxy, None, basis_pxy, None, rotate_xyaxes=True), 3)):
+        if guarded(ctx, 'Keystone:opd:%s:%s' % (name, tag), rec, prep) is None:
+            continue
+        zero_c = np.zeros(nmodes)
+        k = nseg // 2
+        piston = [np.eye(1, nmodes, 0).ravel() if i == k else np.zeros(nmodes) for i in range(nseg)]
+        got = guarded(ctx, 'Keystone:opd:%s:%s' % (name, tag), rec, lambda: np.asarray(ap.compose_opd(zero_c, piston)))
+        if got is None:
+            continue
+        if not np.array_equal(got != 0, segfull[k]) or core.maxabs(got[segfull[k]] - 1) > 1e-12:
+            ctx.fail('Keystone:opd:confined:%s:%s' % (name, tag), '%s: a unit piston on segment %d changes %d sample(s) outside it' % (desc, k, int(((got != 0) & ~segfull[k]).sum())), rec)
+        gc = np.asarray(ap.compose_opd(np.eye(1, nmodes, 0).ravel(), [np.zeros(nmodes)] * nseg))
+        if not np.array_equal(gc != 0, centrefull):
+            ctx.fail('Keystone:opd:confined-centre:%s:%s' % (name, tag), '%s: a unit piston on the centre segment is not confined to it' % desc, rec)
+        ca, cb = [rng.normal(size=nmodes) for _ in range(nseg)], [rng.normal(size=nmodes) for _ in range(nseg)]
+        a0, b0 = rng.normal(size=nmodes), rng.normal(size=nmodes)
+        ga, gb = np.asarray(ap.compose_opd(a0, ca)), np.asarray(ap.compose_opd(b0, cb))
+        gab = np.asarray(ap.compose_opd(a0 + 2.5 * b0, [u + 2.5 * v for u, v in zip(ca, cb)]))
+        if core.maxabs(gab - (ga + 2.5 * gb)) > 1e-9 * max(1.0, float(np.abs(ga).max())):
+            ctx.fail('Keystone:opd:linear:%s:%s' % (name, tag), '%s: compose_opd is not linear in the coefficients' % desc, rec)
+        anyseg = centrefull.copy()
+        for f in segfull:
+            anyseg |= f
+        if (ga[~anyseg] != 0).any():
+            ctx.fail('Keystone:opd:outside:%s:%s' % (name, tag), '%s: optical path error outside every segment' % desc, rec)
 
 
 def replay_prim(rec, ctx, np, idx):
